@@ -1,5 +1,6 @@
 """C06 -- archives conform to format v1 as documented, in both directions (shape level)."""
 import json, os, re
+import re
 from ..core import *
 
 EXPLANATION = ("Shape/constant conformance of the type-checked program against tables/format_v1.json (transcribed from FORMAT.md): (R06.1) evaluated "
@@ -79,6 +80,112 @@ def seek_kind(body, t):
     if e[0] == 'agg':
         return 'seek_' + e[3].j.get('variant', '?').lower()
     return 'seek_?'
+
+
+def nonce_layout(prog, bn):
+    """[((lo, hi) of the 12-byte nonce, what is copied there)] for build_nonce; shared with C03"""
+    # destination ranges of the nonce that are written, with what is written into them (several equivalent idioms)
+    def dest_range(op):
+        """(lo, hi) of the sub-slice of the 12-byte nonce an operand designates"""
+        e = expr_of(bn, op)
+        for _ in range(6):
+            if e[0] == 'cast':
+                e = e[1]
+                continue
+            if e[0] == 'ref':
+                pl = e[1]
+                nd = [p for p in pl[1] if p[0] != 'deref']
+                if nd and nd[-1][0] == 'f' and bn.lty(pl[0]).startswith('(&mut [u8], &mut [u8])'):
+                    d = unique_def(bn, pl[0])
+                    if d is not None and d[2] == 'call' and d[3].cmethod == 'split_at_mut':
+                        k = const_eval(bn, d[3].args[1])
+                        return (0, k) if nd[-1][1] == 0 else (k, 12)
+                if not nd:
+                    e = expr_of(bn, _mk_local_op(pl[0]))
+                    continue
+                return None
+            if e[0] == 'place' and e[1][1] and e[1][1][-1][0] == 'f' and bn.lty(e[1][0]).startswith('(&mut [u8], &mut [u8])'):
+                d = unique_def(bn, e[1][0])
+                if d is not None and d[2] == 'call' and d[3].cmethod == 'split_at_mut':
+                    k = const_eval(bn, d[3].args[1])
+                    return (0, k) if e[1][1][-1][1] == 0 else (k, 12)
+                return None
+            if e[0] == 'call' and e[2].cmethod == 'index_mut' and len(e[2].args) >= 2:
+                r = expr_of(bn, e[2].args[1])
+                if r[0] == 'agg':
+                    nm = r[3].j.get('adt', '').rsplit('::', 1)[-1]
+                    vals = [const_eval(bn, o) for o in r[3].ops]
+                    if nm == 'RangeTo':
+                        return (0, vals[0])
+                    if nm == 'RangeFrom':
+                        return (vals[0], 12)
+                    if nm == 'Range':
+                        return (vals[0], vals[1])
+                return None
+            break
+        return None
+    layout = []
+    for c in bn.calls():
+        t = c.term
+        if t.cmethod == 'copy_from_slice' and len(t.args) == 2:
+            rng = dest_range(t.args[0])
+            src = origins(bn, [t.args[1].place[0]])
+            if 2 in src.params:
+                conv = sorted(bn.blocks[cb].term.cmethod for cb in src.calls if bn.blocks[cb].term.cmethod.startswith('to_'))
+                what = 'ctr:' + ('be' if conv == ['to_be_bytes'] else 'le' if conv == ['to_le_bytes'] else '?')
+                # which bytes of the rendering are copied: the 4 low-order ones (for big-endian: the last 4 of the array)
+                width = None
+                sub = None
+                other = []
+                for cb in src.calls:
+                    ct = bn.blocks[cb].term
+                    if ct.cmethod.startswith('to_'):
+                        m = re.search(r'impl (u|i)(\d+|size)', ct.cdef or ct.cargs or '')
+                        if m:
+                            width = 8 if m.group(2) == 'size' else int(m.group(2)) // 8
+                    elif ct.cmethod in ('index', 'index_mut') and len(ct.args) >= 2:
+                        r = expr_of(bn, ct.args[1])
+                        if r[0] == 'agg':
+                            nm = r[3].j.get('adt', '').rsplit('::', 1)[-1]
+                            vals = [const_eval(bn, o_) for o_ in r[3].ops]
+                            sub = (nm, vals)
+                        else:
+                            other.append(ct.cmethod)
+                    elif ct.cmethod in ('deref', 'as_ref', 'borrow', 'as_slice'):
+                        pass
+                    else:
+                        other.append(ct.cmethod or cnorm(ct))
+                if width is None or other:
+                    what += ':bytes?'
+                else:
+                    lo, hi = 0, width
+                    if sub is not None:
+                        nm, vals = sub
+                        if nm == 'RangeTo':
+                            lo, hi = 0, vals[0]
+                        elif nm == 'RangeFrom':
+                            lo, hi = vals[0], width
+                        elif nm == 'Range':
+                            lo, hi = vals[0], vals[1]
+                        elif nm == 'RangeFull':
+                            pass
+                        else:
+                            lo = hi = None
+                    low4 = (width - 4, width) if what == 'ctr:be' else (0, 4)
+                    if (lo, hi) != low4:
+                        what += ':bytes[%s..%s]of%s' % (lo, hi, width)
+            elif 1 in src.params:
+                what = 'prefix'
+            else:
+                what = '?'
+            layout.append((rng, what))
+        elif t.ctrait == 'byteorder::ByteOrder' and t.cmethod == 'write_u32' and len(t.args) == 2:
+            rng = dest_range(t.args[0])
+            st = t.callee.get('self_ty', '')
+            so = origins(bn, [t.args[1].place[0]]) if t.args[1].place is not None else None
+            e_ = 'be' if ('BigEndian' in st or 'NetworkEndian' in st) else 'le' if 'LittleEndian' in st else '?'
+            layout.append((rng, 'ctr:' + e_ if so and 2 in so.params else '?'))
+    return layout
 
 
 def run(prog, rep, tier):
@@ -315,66 +422,7 @@ def run(prog, rep, tier):
     # ---------------- R06.5 nonce layout and counter
     bn = one_body(prog, rep, 'R06.5', 'mla', exact='layers::encrypt::build_nonce')
     if bn is not None:
-        # destination ranges of the nonce that are written, with what is written into them (several equivalent idioms)
-        def dest_range(op):
-            """(lo, hi) of the sub-slice of the 12-byte nonce an operand designates"""
-            e = expr_of(bn, op)
-            for _ in range(6):
-                if e[0] == 'cast':
-                    e = e[1]
-                    continue
-                if e[0] == 'ref':
-                    pl = e[1]
-                    nd = [p for p in pl[1] if p[0] != 'deref']
-                    if nd and nd[-1][0] == 'f' and bn.lty(pl[0]).startswith('(&mut [u8], &mut [u8])'):
-                        d = unique_def(bn, pl[0])
-                        if d is not None and d[2] == 'call' and d[3].cmethod == 'split_at_mut':
-                            k = const_eval(bn, d[3].args[1])
-                            return (0, k) if nd[-1][1] == 0 else (k, 12)
-                    if not nd:
-                        e = expr_of(bn, _mk_local_op(pl[0]))
-                        continue
-                    return None
-                if e[0] == 'place' and e[1][1] and e[1][1][-1][0] == 'f' and bn.lty(e[1][0]).startswith('(&mut [u8], &mut [u8])'):
-                    d = unique_def(bn, e[1][0])
-                    if d is not None and d[2] == 'call' and d[3].cmethod == 'split_at_mut':
-                        k = const_eval(bn, d[3].args[1])
-                        return (0, k) if e[1][1][-1][1] == 0 else (k, 12)
-                    return None
-                if e[0] == 'call' and e[2].cmethod == 'index_mut' and len(e[2].args) >= 2:
-                    r = expr_of(bn, e[2].args[1])
-                    if r[0] == 'agg':
-                        nm = r[3].j.get('adt', '').rsplit('::', 1)[-1]
-                        vals = [const_eval(bn, o) for o in r[3].ops]
-                        if nm == 'RangeTo':
-                            return (0, vals[0])
-                        if nm == 'RangeFrom':
-                            return (vals[0], 12)
-                        if nm == 'Range':
-                            return (vals[0], vals[1])
-                    return None
-                break
-            return None
-        layout = []
-        for c in bn.calls():
-            t = c.term
-            if t.cmethod == 'copy_from_slice' and len(t.args) == 2:
-                rng = dest_range(t.args[0])
-                src = origins(bn, [t.args[1].place[0]])
-                if 2 in src.params:
-                    conv = sorted(bn.blocks[cb].term.cmethod for cb in src.calls if bn.blocks[cb].term.cmethod.startswith('to_'))
-                    what = 'ctr:' + ('be' if conv == ['to_be_bytes'] else 'le' if conv == ['to_le_bytes'] else '?')
-                elif 1 in src.params:
-                    what = 'prefix'
-                else:
-                    what = '?'
-                layout.append((rng, what))
-            elif t.ctrait == 'byteorder::ByteOrder' and t.cmethod == 'write_u32' and len(t.args) == 2:
-                rng = dest_range(t.args[0])
-                st = t.callee.get('self_ty', '')
-                so = origins(bn, [t.args[1].place[0]]) if t.args[1].place is not None else None
-                e_ = 'be' if ('BigEndian' in st or 'NetworkEndian' in st) else 'le' if 'LittleEndian' in st else '?'
-                layout.append((rng, 'ctr:' + e_ if so and 2 in so.params else '?'))
+        layout = nonce_layout(prog, bn)
         want = [((0, 8), 'prefix'), ((8, 12), 'ctr:be')]
         ok = sorted(layout, key=str) == sorted(want, key=str)
         rep.ob('R06.5', ok, 'R06.5|%s|layout' % bn.nkey, 'nonce[0..8] = archive nonce, nonce[8..12] = big-endian chunk counter' if ok else 'nonce layout is %s, published: archive nonce followed by the big-endian counter' % layout, bn.loc())
